@@ -1045,14 +1045,51 @@ def selftest(n=60):
     return ok
 
 
-SCOPE = "partial: under construction"
-EXPLANATION = ""
+SCOPE = ("partial: proved in full - monotone square roots (least upper root, monotone, negative fails), SigFigRound (half unit of the last kept "
+         "digit), Compare*/BinarySearch/BinarySearchBigDec for every searched function (tolerance met on the requested side, in range, "
+         "non-convergence only after maxIterations failed probes), Exp2 (relative 1e-19 on the whole domain 0..512, domain failures), LogBase2 "
+         "(3.3e-33 for every representable positive argument) and Ln/TickLog/CustomBaseLog (that error scaled by the base change), all domain "
+         "failures.  NOT proved: an error bound for Pow/PowApprox on 0.5 <= base < 2 (only domain failures, termination of the series loop, the "
+         "integer-exponent case; that range is covered by the oracle and the bit-exact correspondence); in-domain totality of Exp2/LogBase2 "
+         "(that no range panic fires inside the domain - observed on every generated case, not proved).  Refuted with witnesses: the "
+         "documented Pow precision for base < 0.5 (finding F4) and 'fails loudly' for Pow exponents <= -1 (finding F9).")
+EXPLANATION = ("Gallina model of osmomath's exp2/log/pow/sqrt/sigfig/binary-search code on raw mantissas (C13/*.v over Base/DecModel.v), with every "
+               "panic/error as an explicit error value.  Integer-only theorems are axiom-free; error bounds against exp/ln use the standard "
+               "library reals: Coq-Interval proves |h/(p 2^x) - 1| <= 1e-20 on [0,1] for the coefficient literals regenerated from exp2.go on every "
+               "run, and that the stored log2(e), log2(1.0001) literals are correctly rounded; hand proofs bound the fixed-point rounding (33 ulps "
+               "for the rational function, 3300 ulps for the 300-round logarithm incl. up to 1144 normalisation shifts).  The model is tied to /repo "
+               "by bit-exact comparison of every function on structured inputs (domain edges, +-1 ulp, log-uniform interior, malformed stream), and an "
+               "independent 700-bit big-integer oracle checks the property's bounds on the implementation's outputs.")
 TRUSTED = [
-    "hand-written model coq/theories/C13/*.v over Base/DecModel.v, tied to /repo/osmomath by the bit-exact correspondence run (harness/c13drv)",
-    "translator props/c13.py translate(): regexes over the Go literals; every constant it emits is exercised by the correspondence",
-    "harness/c13drv (Go), props/c13.py (generator, oracle with exact integer / rational arithmetic), Coq vm_compute evaluation of generated case files",
+    "hand-written model coq/theories/C13/{Common,Sqrt,SigFig,BinSearch,Exp2,Log2,Pow}.v over Base/DecModel.v, tied to /repo/osmomath (and to "
+    "cosmossdk.io/math v1.5.3 LegacyDec/Int for Pow, SigFigRound, Compare) by the bit-exact correspondence run (harness/c13drv)",
+    "translator props/c13.py translate(): regexes over the Go literals of exp2.go, decimal.go, math.go, sqrt.go, sigfig_round.go -> Gen/C13_consts.v; "
+    "every constant it emits is exercised by the correspondence",
+    "harness/c13drv (Go), props/c13.py + props/_c13_ref.py (generator, 700-bit integer reference for 2^x / log2 / x^y, oracle), Coq vm_compute "
+    "evaluation of generated case files",
+    "axioms (exactly those printed by Print Assumptions for the real-analysis theorems; the integer-only theorems are closed): "
+    "ClassicalDedekindReals.sig_forall_dec, ClassicalDedekindReals.sig_not_dec, Classical_Prop.classic, "
+    "FunctionalExtensionality.functional_extensionality_dep (Coq standard library reals), and the kernel's primitive 63-bit integers with their "
+    "specification axioms PrimInt63.* / Uint63.* (used by Coq-Interval's BigZ floating-point arithmetic; primitive floats are NOT used)",
+    "Coq-Interval 4.x / Flocq / Coquelicot / Bignums libraries as installed (checked by the kernel; no native_compute)",
 ]
-ASSUMPTIONS = ["Go big.Int Quo/Rem = truncated division, Sqrt = floor square root, Lsh/Rsh on non-negative values = *2^n / floor(/2^n)"]
-TECHNIQUE = "Coq proof over a Gallina model of osmomath's approximation functions; model tied to the Go code by bit-exact differential correspondence (vm_compute) + rational oracle"
-LEVEL_TEXT = ""
-LEVEL_NOTE = ""
+ASSUMPTIONS = [
+    "Go big.Int Quo/Rem/QuoRem = truncated division, Sqrt = floor square root, Lsh = *2^n, Rsh = floor(/2^n) also for negative values",
+    "representable BigDec argument = mantissa of at most 1144 bits (osmomath's maxDecBitLen); Dec values within LegacyDec's 2^256 range",
+    "documented domains: Exp2 0..2^9; LogBase2 x > 0; CustomBaseLog base > 0, base <> 1; Pow 0 < base < 2, exponent >= 0, precision 1e-8 (scaled by the "
+    "integer power); SigFigRound d >= 0 with tenToSigFig a power of ten",
+    "derived logarithms: '1e-32 scaled by the base change' is read as (1e-32 + |result| * eps_b) / (|log2 base| - eps_b) + 1 ulp, eps_b = 1e-36 for the "
+    "stored constants and 1e-32 for a computed base logarithm",
+]
+TECHNIQUE = ("Coq proof over a Gallina model of osmomath's approximation functions (Coq-Interval for the real-analysis lemma on the generated "
+             "coefficients, hand-written fixed-point error analysis); model tied to the Go code by bit-exact differential correspondence "
+             "(vm_compute) + 700-bit rational oracle")
+LEVEL_TEXT = ("Machine-checked theorems (Coq 8.16.1) over a hand-written model: square roots, SigFigRound, tolerance comparison and both binary "
+              "searches (for every searched function) are proved in full and axiom-free; Exp2 (relative 1e-19) and LogBase2/Ln/TickLog/CustomBaseLog "
+              "(3.3e-33 scaled by the base change) are proved for all inputs of their domains over the standard-library reals with Coq-Interval; "
+              "Pow's documented precision is refuted for base < 0.5 and its fail-loudly claim for exponents <= -1 (known findings F4, F9), and no "
+              "bound is proved for Pow on 0.5 <= base < 2 (covered by the oracle only).  The model is checked bit-exact against the real code on "
+              "every run, and an independent big-integer oracle evaluates the property's bounds on the implementation's outputs.")
+LEVEL_NOTE = ("Trusted: Coq kernel (vm_compute; no native_compute); real-number axioms of the standard library and the primitive-integer axioms used "
+              "by Coq-Interval (listed verbatim in trusted_base); hand-written model C13/*.v and Base/DecModel.v; translator regexes; Go driver "
+              "harness/c13drv; python generator/oracle/reference.  Pow error bound on [0.5,2) and in-domain totality of Exp2/LogBase2 are not proved.")
